@@ -261,7 +261,12 @@ def task(items):
     p = Partial()
     for lay, C in items:
         for name, kw, _ in configs(len(lay), C, lay):
-            check(name, kw, lay, C, p)
+            try:
+                check(name, kw, lay, C, p)
+            except Exception as e:
+                p.violation(f"C16:exception:{type(e).__name__}|{name}|{kwsig(name, kw)}",
+                            dict(wrapper=name, kwargs={k: (tolist(v) if hasattr(v, "tolist") else v) for k, v in kw.items()}, layout=list(lay), C=C),
+                            f"{name} on labels {list(lay)}: {e!r}")
     p.sample(dict(layout=list(items[-1][0]), classes=items[-1][1], wrappers=sorted({c[0] for c in configs(len(items[-1][0]), items[-1][1], items[-1][0])})))
     return p
 
